@@ -819,9 +819,12 @@ def c_exports(cfgname, **cfg):
     # every register of every bank is published by csr.h exactly once, inside the CSR region, without overlap
     names = [f"{rn}_{c.name}" for rn, r in soc.csr.regions.items() if not isinstance(r.obj, Memory) for c in r.obj]
     spans = sorted((haddr[n], haddr[n] + 4 * hsize[n], n) for n in haddr)
-    chk("ens.csr.h publishes every bank register once, inside the csr region, pairwise disjoint", sorted(names) == sorted(haddr) and all(a1 <= b0 for (a0, a1, _), (b0, b1, _) in zip(spans, spans[1:]))
+    ok_pub = chk("ens.csr.h publishes every bank register once, inside the csr region, pairwise disjoint", sorted(names) == sorted(haddr) and all(a1 <= b0 for (a0, a1, _), (b0, b1, _) in zip(spans, spans[1:]))
         and all(csr_base <= a0 and a1 <= csr_base + truth_regions["csr"][1] for a0, a1, _ in spans), (sorted(set(names) ^ set(haddr)), spans[:3]))
-    chk("ens.csr.h region bases==csr.regions origins", hbase == {n: r.origin for n, r in soc.csr.regions.items()}, hbase)
+    ok_base = chk("ens.csr.h region bases==csr.regions origins", hbase == {n: r.origin for n, r in soc.csr.regions.items()}, hbase)
+    if not (ok_pub and ok_base):
+        # csr.h is the reference of every later comparison (fields, SVD, JSON, CSV, Builder files): with a wrong csr.h they are not stated; the violation above is the verdict
+        return dict(results=out, functions=["litex.soc.integration.export.get_csr_header", "litex.soc.integration.soc.SoC.finalize (csr regions)"], samples=[dict(config=cfgname)])
     # ---------------- field accessors (csr.h with_fields_access_functions=True): the emitted C expressions, read as uint32_t arithmetic, select exactly the field's bits
     hdrf = export.get_csr_header(soc.csr_regions, soc.constants, csr_base, with_fields_access_functions=True)
     fdefs = {}
